@@ -13,6 +13,7 @@ import XotModel.Lemmas.FcloneLocal4
 import XotModel.Lemmas.FcloneLocal5
 import XotModel.Lemmas.FlocalAll3
 import XotModel.Lemmas.FhistLocal
+import XotModel.Lemmas.FparseHistLocal
 import XotModel.Lemmas.FclonePrefix8
 import XotModel.Lemmas.FcloneRoundTrip
 import XotModel.Lemmas.FcloneRepr2
@@ -680,5 +681,126 @@ example : (exXStore.xrun (exXCalls.take 4)).forest.inheritedPrefixes (exXStore.x
 /-- … and the other way round: calls on the clone (arguments 7 … 10). -/
 example : ∀ c ∈ [Forest.XCall.createMissingPrefixes 7, .deduplicateNamespaces 7, .call (.remove 9),
     .removeInsignificantWhitespace 7], ∀ a ∈ c.writeArgs, 6 ≤ a := by decide
+
+end XotModel.Props
+
+/-! # ================================================================================================
+    # FULL HISTORIES (branch wt-reachfull): locality along histories that PARSE and edit
+    # ================================================================================================
+
+  `PCall` on `PStore` (Model/FparseHist.lean): an extended API call, or `parse mode text` of an ARBITRARY text
+  (an accepted tree is installed as a new parentless tree on fresh handles, `IdStore.parseInto`; a rejected
+  one leaves the forest alone).  A parse step names no node, so it writes below none: locality and
+  independence hold along these histories with the condition on the API steps only
+  (Lemmas/FparseHistLocal.lean: `SepB` is kept by `parseInto` because the new handles are ≥ `next`). -/
+
+namespace XotModel.Props
+open XotModel
+
+/-- One step of a full history — an extended call none of whose WRITTEN node arguments is a node of the
+    root tree `r`, or the parse of ANY text (accepted: a new root on fresh handles; rejected: nothing) —
+    leaves `r`, handle for handle and value for value, a root of the forest (and still separated). -/
+theorem C12_locality_pcall (s : PStore) (r : HTree) (c : PCall) (hs : SepB r s.forest)
+    (hargs : ∀ x, c = .api x → ∀ a ∈ x.writeArgs, a ∉ HTree.handles r) :
+    r ∈ (s.step c).forest.roots ∧ SepB r (s.step c).forest :=
+  ⟨(hs.fphl_step c hargs).sep.mem, hs.fphl_step c hargs⟩
+
+/-- ⟦C12_locality_full⟧ **Arbitrary histories of parses and API calls**: a root tree none of whose nodes is
+    ever named as a written argument of an API step is, at the end, exactly the tree it was — whatever is
+    parsed in between, whatever the steps answer.  (`C12_locality_ext` with parse steps; no invariant.) -/
+theorem C12_locality_full (s : PStore) (r : HTree) (cs : List PCall) (hs : SepB r s.forest)
+    (hargs : ∀ c ∈ cs, ∀ x, c = .api x → ∀ a ∈ x.writeArgs, a ∉ HTree.handles r) :
+    r ∈ (s.run cs).forest.roots ∧ SepB r (s.run cs).forest :=
+  ⟨(hs.fphl_run cs hargs).sep.mem, hs.fphl_run cs hargs⟩
+
+/-- ⟦C12_reachable_locality_full⟧ … from `Xot::new()`: `SepB` is a theorem for every parentless tree of every
+    store a full history `pre` reaches (`SepB.of_inv`, the invariant by `PStore.fph_run_inv` = `C04_reach_full`);
+    the only side condition is `PCall.wellKinded` of the steps of `pre`. -/
+theorem C12_reachable_locality_full (env : Env) (pre : List PCall) (hw : ∀ c ∈ pre, c.wellKinded)
+    (r : HTree) (hr : r ∈ ((PStore.init env).run pre).forest.roots) (cs : List PCall)
+    (hargs : ∀ c ∈ cs, ∀ x, c = .api x → ∀ a ∈ x.writeArgs, a ∉ HTree.handles r) :
+    r ∈ (((PStore.init env).run pre).run cs).forest.roots :=
+  (C12_locality_full _ r cs
+    (SepB.of_inv (PStore.fph_run_inv pre (PStore.fph_init_inv env) hw) hr) hargs).1
+
+/-- ⟦C12_reachable_independent_full⟧ **Independence of a clone, in a store reached by parses and API calls, under
+    arbitrary later histories of parses and API calls**: after `clone_node(node)` as a step (of a live
+    node — of a parsed document, say), the clone is untouched by whatever is done or parsed later as long
+    as no API step writes below one of ITS nodes, and every tree that existed before (in particular the
+    source's) is untouched as long as no API step writes below one of its nodes (`C12_independent_ext`
+    with parse steps, from `Xot::new()`). -/
+theorem C12_reachable_independent_full (env : Env) (pre : List PCall) (hw : ∀ c ∈ pre, c.wellKinded)
+    (node c : Nat) (live : ((PStore.init env).run pre).forest.isLive node = true)
+    (hc : (((PStore.init env).run pre).forest.cloneNode node).2 = some c) :
+    ∃ C, ((PStore.init env).run (pre ++ [.api (.call (.cloneNode node))])).forest.get? c = some C ∧
+      (∀ cs : List PCall, (∀ y ∈ cs, ∀ x, y = .api x → ∀ a ∈ x.writeArgs, a ∉ HTree.handles C) →
+        C ∈ ((PStore.init env).run (pre ++ .api (.call (.cloneNode node)) :: cs)).forest.roots) ∧
+      (∀ r ∈ ((PStore.init env).run pre).forest.roots, ∀ cs : List PCall,
+        (∀ y ∈ cs, ∀ x, y = .api x → ∀ a ∈ x.writeArgs, a ∉ HTree.handles r) →
+        r ∈ ((PStore.init env).run (pre ++ .api (.call (.cloneNode node)) :: cs)).forest.roots) := by
+  have inv := PStore.fph_run_inv pre (PStore.fph_init_inv env) hw
+  generalize hS : (PStore.init env).run pre = S at inv live hc
+  have hstep : ∀ cs : List PCall, (PStore.init env).run (pre ++ .api (.call (.cloneNode node)) :: cs) =
+      (⟨(S.forest.cloneNode node).1, S.env, S.index⟩ : PStore).run cs := by
+    intro cs
+    rw [PStore.fph_run_append, hS, PStore.fph_run_cons]
+    rfl
+  obtain ⟨src, hsrc⟩ := (Forest.isLive_iff S.forest node).mp live
+  obtain ⟨C, f', h1, h2, h3, h4, -⟩ := cloneNode_full S.forest inv node src hsrc
+  obtain ⟨g3, g4⟩ := sepB_after_clone S.forest inv C f' h2 h4
+  have e1 : (S.forest.cloneNode node).1 = f' := by rw [h1]
+  rw [h1] at hc
+  cases hc
+  refine ⟨C, ?_, fun cs h => ?_, fun r hr cs h => ?_⟩
+  · rw [hstep [], e1]; exact h3
+  · rw [hstep cs, e1]
+    exact (SepB.fphl_run (st := ⟨f', S.env, S.index⟩) cs g3 h).sep.mem
+  · rw [hstep cs, e1]
+    exact (SepB.fphl_run (st := ⟨f', S.env, S.index⟩) cs (g4 r hr) h).sep.mem
+
+/-! Non-vacuity, closed, from the tables of `Xot::new()` (`Env.fresh`).  `pre`: PARSE
+    `<r xmlns:p="urn:a"><p:a>t</p:a></r>` (the root `c12FullRoot`, handles 0 … 4).  Then twelve steps whose written
+    arguments are all ≥ 5: a new element (5), a REJECTED parse, an accepted parse of `<x/>` (6, 7), a new text
+    (8) appended to 5, a declaration on 5 (9), `clone_node(3)` — the SOURCE is a node of the parsed document,
+    which is only read —, `deduplicate_namespaces(5)`, `create_missing_prefixes(6)`,
+    `remove_insignificant_whitespace(6)`, `set_text_consolidation(false)`, `remove(7)`.  The parsed document
+    is, node for node, what it was (by the theorem); the store around it has changed (evaluated). -/
+
+def c12FullText : Str := "<r xmlns:p=\"urn:a\"><p:a>t</p:a></r>".toList
+def c12FullPre : List PCall := [.parse .document c12FullText]
+def c12FullRoot : HTree :=
+  .node 0 .document [.node 1 (.element 2) [.node 2 (.namespace 2 2) [],
+    .node 3 (.element 3) [.node 4 (.text ['t']) []]]]
+def c12FullCalls : List PCall :=
+  [.api (.newNode (.element 3)), .parse .document "<a><b></a>".toList, .parse .document "<x/>".toList,
+   .api (.newNode (.text ['u'])), .api (.call (.append 5 8)),
+   .api (.call (.mapInsert .namespaces 5 (.namespace 2 2))), .api (.call (.cloneNode 3)),
+   .api (.deduplicateNamespaces 5), .api (.createMissingPrefixes 6), .api (.removeInsignificantWhitespace 6),
+   .api (.setConsolidation false), .api (.call (.remove 7))]
+/-- the written node arguments of a step (a parse has none) -/
+def c12WriteArgs : PCall → List Nat
+  | .api x => x.writeArgs
+  | .parse _ _ => []
+
+theorem c12FullRoot_mem : c12FullRoot ∈ ((PStore.init Env.fresh).run c12FullPre).forest.roots := by
+  have : ((PStore.init Env.fresh).run c12FullPre).forest.roots = [c12FullRoot] := by decide +kernel
+  rw [this]; exact List.mem_singleton.mpr rfl
+theorem c12FullCalls_args : ∀ c ∈ c12FullCalls, ∀ a ∈ c12WriteArgs c, 5 ≤ a := by decide
+
+example : c12FullRoot ∈ (((PStore.init Env.fresh).run c12FullPre).run c12FullCalls).forest.roots :=
+  C12_reachable_locality_full Env.fresh c12FullPre (by decide) c12FullRoot c12FullRoot_mem c12FullCalls
+    (fun c hc x hx a ha har => by
+      subst hx
+      have h1 := c12FullCalls_args _ hc a ha
+      have h2 : ∀ b ∈ HTree.handles c12FullRoot, b < 5 := by decide
+      exact absurd (h2 a har) (by omega))
+example :
+    let S := ((PStore.init Env.fresh).run c12FullPre).run c12FullCalls
+    S.forest.roots.map HTree.handles = [[0, 1, 2, 3, 4], [5, 9, 8], [6], [11, 12]] ∧
+    (PStore.outs ((PStore.init Env.fresh).run c12FullPre) c12FullCalls).map (fun o => decide (PCall.refused o)) =
+      [false, true, false, false, false, false, false, false, false, false, false, false] ∧
+    S.env.names = [(['s', 'p', 'a', 'c', 'e'], 1), (['i', 'd'], 1), (['r'], 0), (['a'], 2), (['a'], 0), (['b'], 0),
+      (['x'], 0)] := by
+  decide +kernel
 
 end XotModel.Props
